@@ -42,20 +42,48 @@ def from_term(t):
 def all_states():
     return [('Error',), ('WantFirst',)] + [('WantSecond', p) for p in range(16)] + [('Value', 0), ('Value', 65)]
 
-def check_feed(facts):
-    """Returns (number of (state, byte) pairs evaluated, list of wrong ones)."""
+def feed_table(facts):
+    """{(state, byte): set of resulting states, or None where an evaluation did not end in a value} for all 5120 pairs, evaluated once
+    per fact set (the interpretation of `feed` on literal arguments does not depend on who asks)."""
+    tab = getattr(facts, '_unesc_feed_table', None)
+    if tab is not None:
+        return tab
     B = hirq.Body(facts, facts.body(FEED))
     I = absx.Interp(facts, B, summaries=[char_summary])
     binds = {d['name']: b for b, d in B.defs.items() if d['kind'] == 'param'}
-    wrong = []
-    n = 0
+    tab = {}
     for s in all_states():
         for c in range(256):
-            n += 1
             env = {binds['self']: state_term(s), binds['c']: ('lit', c)}
-            outs = [o for o in I.run(env=env) if o.kind in ('val', 'ret')]
-            got = {from_term(o.val) for o in outs}
-            exp = ref_feed(s, c)
-            if got != {exp}:
-                wrong.append((s, c, sorted(map(str, got)), exp))
-    return n, wrong
+            outs = I.run(env=env)
+            vals = [o for o in outs if o.kind in ('val', 'ret')]
+            tab[(s, c)] = ({from_term(o.val) for o in vals}, len(vals) == len(outs))
+    try:
+        facts._unesc_feed_table = tab
+    except Exception:
+        pass
+    return tab
+
+def check_feed(facts):
+    """Returns (number of (state, byte) pairs evaluated, list of wrong ones)."""
+    wrong = []
+    tab = feed_table(facts)
+    for (s, c), (got, _total) in tab.items():
+        exp = ref_feed(s, c)
+        if got != {exp}:
+            wrong.append((s, c, sorted(map(str, got)), exp))
+    return len(tab), wrong
+
+def feed_summary(facts):
+    """`feed` on a literal (state, byte) pair answers what its own exhaustive evaluation (feed_table) found, where that is one state on
+    every path; any other call is left to the interpreter (inlined).  Saves re-interpreting `feed` at each of its call sites."""
+    tab = feed_table(facts)
+    def summary(I, cal, args, node, st):
+        if cal != FEED or len(args) != 2 or args[1][0] != 'lit':
+            return None
+        s = from_term(args[0])
+        r = tab.get((s, args[1][1])) if s is not None else None
+        if r is None or not r[1] or len(r[0]) != 1 or None in r[0]:
+            return None
+        return [absx.Out('val', state_term(next(iter(r[0]))), st)]
+    return summary
